@@ -248,6 +248,8 @@ pub fn rich_string(max: usize) -> BoxedStrategy<String> {
         1 => Just(String::new()),
         8 => prop::collection::vec(rich_char(), 0..=max.min(12)).prop_map(|v| v.into_iter().collect()),
         2 => prop::collection::vec(rich_char(), 0..=max).prop_map(|v| v.into_iter().collect()),
+        // strings that look like JSON structure
+        2 => prop::sample::select(vec!["],[", "\"],[\"", "]", "[", ",", "\",\"", "}", "{\"id\":", "]]", "\\", "\\\"", ":", "[[\"a\"]]", "\\u0041"]).prop_map(|s| s.to_string()),
     ]
     .boxed()
 }
